@@ -64,4 +64,44 @@ PROPS["C17"] = {
     "assumptions": ["inputs are smaller than 2^63-1 bytes"],
 }
 
+GEN_TRUST = ["rassemble-go and regexp/syntax are not modelled: rassemble.Join is an oracle argument of the model, served to the extracted model by the very module version /repo's go.mod pins (harness joinsrv); YAML decoding of toolchain.yaml is outside the model (the six strings are inputs)",
+             "regex text -> Regex.Re terms: Go's own regexp/syntax parser plus harness/rx.go (conversion to the checker's prefix form); word boundaries and multi-line anchors are outside the modelled fragment (such outputs are counted, not compared)",
+             "a Differs verdict of the checker is reported only after Go's regexp engine confirms the distinguishing string on both expressions"]
+
+PROPS["C01"] = {
+    "suites": ["passes", "generate"],
+    "trusted": GEN_TRUST,
+    "level_text": "Kernel-checked soundness theorem of a derivative-based equivalence/inclusion checker for regular expressions with begin/end-of-text assertions (for all expressions, all contexts, all subject strings over the compared alphabet); kernel-checked structure theorems about a Gallina transcription of the whole generate pipeline (parser, include handling, definition expansion, Assemble/CmdLine processors, processor stack, complete, the six string passes) with rassemble.Join as an oracle: every alternation is grouped before concatenation, block results have one of four shapes, the final text is the sorted flag prefix plus printable text; the single-pending-line case is refuted by a model witness that replays on the binary (known finding). Tied by pins on all literals/patterns of the modelled functions, by function-level differential runs of every pass and by end-to-end runs of generated programs through the binary and the model (byte equality of stdout, error class). Per generated program the proved-sound checker decides language equality between the real output and the program's plain reading for ALL subject strings (translation validation).",
+    "level_note": "Trusted: Coq kernel, translator, extraction, harness generators, Go's regexp/syntax as the definition of RE2 syntax. The optimiser (rassemble-go) is not modelled: that its results preserve the language is decided per generated program by the verified checker, not proved for all programs. Out-of-fuel verdicts of the checker are counted as no verdict. Programs: <= 14 items, depth <= 3.",
+    "assumptions": ["the alphabet compared excludes the vertical tab, as the property prescribes", "entries contain no inline flag groups and no word boundaries"],
+}
+PROPS["C02"] = {
+    "suites": ["passes", "generate"],
+    "trusted": GEN_TRUST,
+    "level_text": "Kernel-checked theorems for ALL texts the optimiser could return: after the pass chain the output is printable ASCII on one line (any byte string, valid UTF-8 or not, is hex-escaped), every double quote is directly preceded by a backslash, the flag prefix is one of (?i) (?s) (?is) or absent; 'every quote is escaped' is refuted by a model witness (quote after an even run of backslashes) that replays on the binary (known finding). Tied by pins on the six passes and complete, by function-level differential runs on regex-like and hostile byte strings and by end-to-end runs; the remaining per-character facts (no backslash pair, \\s always with \\x0b, no inline flag group, RE2-parsable) are decided per generated output by the oracle.",
+    "level_note": "Trusted as C01. Not proved (oracle only): absence of a backslash pair after useHexBackslashes, VT next to every \\s, absence of inline flag groups, parsability.",
+    "assumptions": ["as C01"],
+}
+PROPS["C03"] = {
+    "suites": ["expand_defs", "replace_suffixes", "fuzz_generate", "generate", "generate_defs"],
+    "trusted": GEN_TRUST,
+    "level_text": "Go map iteration is an explicit order argument of the model. Kernel-checked theorems for all orders: line classification is order-independent for every line at most one pattern claims; suffix replacement is order-independent for non-interfering pair lists; the include-except sort undoes any iteration order of the line map; the flag prefix is sorted; a run does not read process state left by an earlier run. The parts the code violates (a line two patterns claim, chained replacement pairs) are refuted by model witnesses that replay on the binary (known findings). Tied by pins and by differential runs in which the Go result must lie in the model's result set over all orders; every generated program is additionally executed three times in fresh processes (stdin and file path) and all outputs must be equal.",
+    "level_note": "Trusted as C01. Schedules are proved for the modelled map loops only; other runtime sources of nondeterminism are sampled by repeated fresh executions. Order independence of definition expansion is decided per generated case (model result set over all 576 order pairs), not yet by a theorem.",
+    "assumptions": ["as C01"],
+}
+PROPS["C04"] = {
+    "suites": ["cmdline_fn", "generate_cmdline"],
+    "trusted": GEN_TRUST,
+    "level_text": "Kernel-checked theorems for all words and all configured pattern triples about Gallina transcriptions of regexpStr, regexpChar, computeSuffix and NewCmdLine's pattern selection: the result is the escaped characters with the evasion pattern between any two adjacent ones, trailing @/~ demand the (no-space) suffix pattern, escaped markers keep the character, '.', '-' and space are escaped as stated, a leading quote passes the line through, an empty configuration inserts nothing, unix/windows select their own triple; plus the soundness theorem of the inclusion checker. Tied by pins and function-level differential runs; per generated program (toolchain.yaml CRS-like, partial, empty, malformed, absent) the verified checker decides that the real output's language equals the plain reading in which every word is its characters interleaved with the evasion pattern.",
+    "level_note": "Trusted as C01; YAML decoding is outside the model. Survival of the pattern text through the optimiser is decided per generated program. Words over letters, digits, . - _ space with optional markers, as the property quantifies.",
+    "assumptions": ["configured patterns have no top-level alternation (CRS-like)"],
+}
+PROPS["C19"] = {
+    "suites": ["passes", "generate", "fuzz_generate"],
+    "trusted": GEN_TRUST,
+    "level_text": "Every unchecked index/slice of the string passes is a Crash outcome of the model, the unbounded for-loop is fuelled. Kernel-checked theorems: the flag-group loop terminates on every input (each removal strictly shortens the text, fuel never exhausted), the group scan returns positions inside the text; 'never crashes' is refuted by the model witness the property itself names (escaped parenthesis followed by ?i:), which replays on the binary (known finding). Tied by pins and by differential runs of every pass incl. crash behaviour (Go panic <-> model Crash) on regex-like and hostile texts; token-level fuzzing of the binary (stdin and include files) with a timeout looks for runtime errors and hangs.",
+    "level_note": "Trusted as C01. Panics inside rassemble-go / regexp/syntax / yaml are outside the model; only the fuzz run looks for them. Include cycles end with a loud failure (file-descriptor exhaustion), observed only.",
+    "assumptions": ["inputs up to 4 KiB in the fuzz run"],
+}
+
 NOT_APPLICABLE = {}
